@@ -194,6 +194,11 @@ func (g *gen) double() (float64, string) {
 	}
 }
 
+// receivers that the formatters must answer before (or independently of) their digit-count test
+func (g *gen) specialReceiver() (float64, string) {
+	return Pick(g.r, []float64{math.Inf(1), math.Inf(-1), math.NaN(), math.Copysign(0, -1), 0, math.Inf(1), math.Inf(-1), -5e-324, -1e-30}), "special"
+}
+
 func intDouble(g *gen) (float64, string) {
 	r := g.r
 	switch r.Intn(9) {
@@ -821,6 +826,22 @@ func runC06(env *Env) {
 	pin(2.5e20, func() {
 		addRes("CExp "+Cdouble(2.5e20)+" (Some 0) %s", "x.toExponential(0)", "toexponential/pinned")
 	})
+	// repaired (cf3c0d9): non-finite receivers are answered before the range test
+	pin(math.Inf(1), func() {
+		addRes("CExp "+Cdouble(math.Inf(1))+" (Some (-1)) %s", "x.toExponential(-1)", "toexponential/pinned")
+		addRes("CExp "+Cdouble(math.Inf(1))+" (Some 21) %s", "x.toExponential(21)", "toexponential/pinned")
+		addRes("CPrec "+Cdouble(math.Inf(1))+" 0 %s", "x.toPrecision(0)", "toprecision/pinned")
+		addRes("CPrec "+Cdouble(math.Inf(1))+" 3 %s", "x.toPrecision(3)", "toprecision/pinned")
+	})
+	pin(math.Inf(-1), func() {
+		addRes("CPrec "+Cdouble(math.Inf(-1))+" 22 %s", "x.toPrecision(22)", "toprecision/pinned")
+		addRes("CExp "+Cdouble(math.Inf(-1))+" (Some 5) %s", "x.toExponential(5)", "toexponential/pinned")
+	})
+	pin(math.Copysign(0, -1), func() {
+		addRes("CFixed "+Cdouble(math.Copysign(0, -1))+" 0 %s", "x.toFixed(0)", "tofixed/pinned")
+		addRes("CExp "+Cdouble(math.Copysign(0, -1))+" (Some 2) %s", "x.toExponential(2)", "toexponential/pinned")
+		addRes("CPrec "+Cdouble(math.Copysign(0, -1))+" 2 %s", "x.toPrecision(2)", "toprecision/pinned")
+	})
 	pin(1e-7, func() { addRes("CPrec "+Cdouble(1e-7)+" 3 %s", "x.toPrecision(3)", "toprecision/pinned") })
 	pin(1, func() { addRes("CPrec "+Cdouble(1)+" 3 %s", "x.toPrecision(3)", "toprecision/pinned") })
 	for _, s := range []string{"inf", "1_0", "0x8000000000000000"} {
@@ -852,12 +873,21 @@ func runC06(env *Env) {
 				// the 1e21 switch to ToString and the largest values still printed positionally
 				f, b = g.sign(nudge(r, Pick(r, []float64{1e21, 1e21, 999999999999999868928, 1e20, 1e22, 123456789012345680000, 5e20}))), "threshold"
 			}
+			if r.Intn(14) == 0 {
+				f, b = g.specialReceiver()
+			}
 			g.caseFixed(f, b)
 		case k < 48:
 			f, b := g.double()
+			if r.Intn(10) == 0 {
+				f, b = g.specialReceiver()
+			}
 			g.caseExp(f, b)
 		case k < 56:
 			f, b := g.double()
+			if r.Intn(10) == 0 {
+				f, b = g.specialReceiver()
+			}
 			g.casePrec(f, b)
 		case k < 70:
 			s, b := g.numberText()
